@@ -133,6 +133,8 @@ def option_sets():
         "row_containers": st.sampled_from(["none", "none", "header", "group", "all"]),
         "deflate": st.booleans(),
         "bare_empty": st.booleans(),
+        "annotations": st.sampled_from([False, False, True]),
+        "unnamed": st.sampled_from([False, False, True]),
     })
 
 
@@ -648,6 +650,8 @@ CORPUS = [
     _table_case([[], [[], ["x"]]]),
     _table_case([_T]),
 ]
+CORPUS.append(_table_case([_T], annotations=True))
+CORPUS.append(_table_case([_T, [["x"]]], unnamed=True))
 for _name in ("col_runs", "row_runs", "ws_all", "ws_runs_whole", "paragraphs", "empty_p", "quote_entities", "indent",
               "bare_empty"):
     CORPUS.append(_table_case([_T], **{_name: True}))
